@@ -48,6 +48,8 @@
 (*                            server ends the stream, e.g. its timeout)    *)
 (*   k = "gone"               the watch is answered 410 Gone: re-list      *)
 (*   k = "bookmark"           BOOKMARK event at a fresh resourceVersion    *)
+(*   k = "churn"              thousands of metadata-only updates of an     *)
+(*                            offered object n in a row, ending in o       *)
 (*   k = "listfail"           the pending LIST request is answered with a  *)
 (*                            server error: the client asks again later    *)
 (***************************************************************************)
@@ -67,11 +69,11 @@ Offer(n, o) == [id |-> n, ip |-> o.addr, port |-> o.ports[1], state |-> o.state,
 \* THE set of the property: O is the API-server object map (name -> description | None)
 ReadySetOf(O) == {Offer(n, O[n]) : n \in {m \in DOMAIN O : Offerable(O[m])}}
 
-IsWrite(s) == s.k \in {"create", "modify", "delete"}
+IsWrite(s) == s.k \in {"create", "modify", "churn", "delete"}
 
 \* the API-server object map after step s
 ApiApply(O, s) ==
-  CASE s.k \in {"create", "modify"} -> [O EXCEPT ![s.n] = s.o]
+  CASE s.k \in {"create", "modify", "churn"} -> [O EXCEPT ![s.n] = s.o]
     [] s.k = "delete"               -> [O EXCEPT ![s.n] = None]
     [] OTHER                        -> O
 
@@ -148,8 +150,14 @@ C20_KeptWhileRelisting(steps, held, i) ==
 \* the LIST again after a failed one (R.gaveUp: it never did within the harness's patience, at the step the record ends with)
 C20_KeepsFollowing(R, i) == ~(R.gaveUp /\ i = Len(R.offered))
 
+\* "at all times": while a server is being updated without ever ceasing to be offerable, no reader finds it missing
+\* (R.flicker[i] = number of discover() calls, made from another thread during step i, that did not contain it)
+\* -- judged when the server was being offered when the updates began (a client that has not yet learnt of it cannot offer it)
+C20_NeverMissingWhileReady(R, i) ==
+  (R.steps[i].k = "churn" /\ i > 1 /\ Judged(R.steps, i - 1) /\ R.steps[i].n \in Ids(OfferedSet(R.offered, i - 1))) => R.flicker[i] = 0
+
 ClauseNames(p) ==
-  CASE p = "C20" -> {"C20_KeepsFollowing", "C20_OffersExactlyReady", "C20_CurrentAddressPort", "C20_CurrentMetadata",
+  CASE p = "C20" -> {"C20_NeverMissingWhileReady", "C20_KeepsFollowing", "C20_OffersExactlyReady", "C20_CurrentAddressPort", "C20_CurrentMetadata",
                      "C20_DeletedNotOffered", "C20_UnconvertibleNotOffered", "C20_KeptWhileRelisting"}
     [] OTHER -> {}
 
@@ -162,4 +170,5 @@ Clause(n, R, i) ==
     [] n = "C20_UnconvertibleNotOffered" -> C20_UnconvertibleNotOffered(R.steps, R.offered, i)
     [] n = "C20_KeptWhileRelisting"      -> C20_KeptWhileRelisting(R.steps, R.held, i)
     [] n = "C20_KeepsFollowing"          -> C20_KeepsFollowing(R, i)
+    [] n = "C20_NeverMissingWhileReady"  -> C20_NeverMissingWhileReady(R, i)
 =============================================================================
